@@ -28,6 +28,10 @@ type Kind[K any] struct {
 	// Fan returns up to 256 keys that differ in exactly one byte position of
 	// their transformed form (they all hang under one inner node).
 	Fan func(r *rng.R) []K
+	// Deepen returns a key that shares k's branch under the fan-out node and
+	// diverges further down (so that the child under that byte is an inner
+	// node when both are stored); nil when the kind cannot do that.
+	Deepen func(r *rng.R, k K) K
 	// Universes are the purpose-built key sets of the closed exploration.
 	Universes func() []Universe[K]
 
@@ -53,6 +57,10 @@ type Kind[K any] struct {
 	PrefixQueries func(r *rng.R, k K) []K
 	// PrefixArgOK: collation trees: prefix argument inside the property's scope.
 	PrefixArgOK func(p K) bool
+
+	// VariantFamily (collation): many strings that share their primary weights
+	// pairwise (case variants), nil for the other kinds.
+	VariantFamily func(r *rng.R, pairs int) []K
 
 	// SliceKey: K is a slice type (caller buffers matter: C13).
 	SliceKey bool
